@@ -1,11 +1,16 @@
-"""C19 -- see harness/runfam.py (shared run-family correspondence + oracle_c19)."""
-import runfam
+"""C19 -- runner level: harness/runfam.py (shared run-family correspondence + oracle_c19 on a recording
+reporter); reporter level: harness/c19_reporters.py (the built-in reporters through the real command
+line against Model/Report.v, + independent oracle), on the same Outcome."""
+import runfam, c19_reporters
 
 
 def run(ctx):
-    return runfam.run_property(ctx, 'C19')
+    out = runfam.run_property(ctx, 'C19')
+    return c19_reporters.part_reporters(ctx, out)
 
 
 def replay(ctx, payload):
+    if isinstance(payload.get('case'), dict) and payload['case'].get('part') == 'reporters':
+        return c19_reporters.replay(ctx, payload)
     print(payload)
     return 0
